@@ -189,8 +189,13 @@ theorem ginv_popFail {s : State} {g : Ghost} {i : Nat} {th : Thread} {acc : Acc}
     exact ginv_frame hG hth hI' rfl rfl rfl rfl rfl rfl (fun _ _ => rfl) rfl
       (by intro n; simp [plainAt, plainNode]) (by simp [GOk])
   · simp only [hsp] at hI' ⊢
-    exact ginv_frame hG hth hI' rfl rfl rfl rfl rfl rfl (fun _ _ => rfl) rfl
-      (by intro n; simp [plainAt_finish]) (GOk_finish _ _ _ _)
+    by_cases htk : 0 < th.ticks
+    · simp only [htk, if_true] at hI' ⊢
+      exact ginv_frame hG hth hI' rfl rfl rfl rfl rfl rfl (fun _ _ => rfl) rfl
+        (by intro n; simp [plainAt, plainNode]) (by simp [GOk])
+    · simp only [htk] at hI' ⊢
+      exact ginv_frame hG hth hI' rfl rfl rfl rfl rfl rfl (fun _ _ => rfl) rfl
+        (by intro n; simp [plainAt_finish]) (GOk_finish _ _ _ _)
 
 set_option maxHeartbeats 1000000 in
 theorem ginv_step {s : State} {g : Ghost} (hG : GInv s g) (i : Nat) :
@@ -232,6 +237,9 @@ theorem ginv_step {s : State} {g : Ghost} (hG : GInv s g) (i : Nat) :
       · rename_i hc; simp only [hc, if_false] at hI'
         frame_same (by simp [GOk])
     | popYield =>
+      rw [hpc] at hI'; dsimp only at hI' ⊢
+      frame_same (by simp [GOk])
+    | popTick =>
       rw [hpc] at hI'; dsimp only at hI' ⊢
       frame_same (by simp [GOk])
     | popLoadNext h =>
